@@ -31,11 +31,6 @@ add("KF-diagonal-nonsquare", ["C01", "C04", "C05", "C07", "C09"],
     {"prim": "diagonal", "args": {"0": {"__re__": "[rc][234]n.*"}}, "symptom": ["wrong_shape"]},
     case("diagonal", [A(2, 4)], {"axis1": -1, "axis2": -2}))
 
-add("KF-make-diagonal-complex", ["C04", "C05", "C09"],
-    "make_diagonal allocates a real array, so for complex input the primal silently drops the imaginary part and diagonal()/make_diagonal() return real gradients for complex arguments (wrong kind)",
-    {"prim": ["diagonal", "make_diagonal"], "args": {"0": {"__re__": "c.*"}}, "symptom": ["wrong_kind", "wrong_shape"]},
-    case("diagonal", [C(3, 3)], {"axis1": -1, "axis2": -2}))
-
 add("KF-kron-nd", ["C01", "C04", "C09", "C15"],
     "np.kron with an operand of 3 or more dimensions: grad_kron reshapes as if both operands were at most 2-D and silently returns a wrong cotangent",
     {"prim": "kron", "args": {"__any_item__": {"__re__": "[rc][345].*"}}, "symptom": ["wrong_value", "not_adjoint", "wrong_shape", "modes_disagree"]},
@@ -112,6 +107,7 @@ fixed("FX-select-dtype", ["C06", "C02", "C05"], "40f09be", "autograd.numpy.selec
 fixed("FX-array-ndmin", ["C01", "C02", "C05"], "0fd5721", "np.array(list_of_arrays, ndmin>natural rank): VJP returned a gradient with the prepended axes, JVP scattered into the wrong slot", case("array", [[A(2), A(2)]], {"ndmin": 3}, argnum=0, form="listfun"))
 fixed("FX-linspace-array-endpoints", ["C01", "C02", "C05", "C15"], "feeb86a", "np.linspace with an array endpoint and a scalar endpoint: the scalar endpoint received a vector gradient / wrongly shaped tangent", case("linspace", [A(2), 0.7, 4], argnum=1, tags=["array_endpoints"]))
 fixed("FX-pad-jvp-modes", ["C02", "C15"], "8d5fb8b", "forward-mode np.pad padded the tangent for the non-linear statistics modes (silently wrong) and ignored stat_length / reflect_type", case("pad", [A(5), 1, "maximum"], tags=["unsupported_mode"]), witness_mode="fwd")
+fixed("FX-make-diagonal-dtype", ["C05", "C09"], "b957bf9", "make_diagonal allocated float64: complex input lost its imaginary part; diagonal()/make_diagonal() returned real gradients for complex arguments", case("diagonal", [C(3, 3)], {"axis1": -1, "axis2": -2}))
 fixed("FX-where-jvp-broadcast", ["C05", "C02"], "423a953", "forward-mode np.where returned a tangent with the branch's shape/kind instead of the output's", case("where", [cc, A(3), A(2, 2, 3)], argnum=1), witness_mode="fwd")
 
 out = {"_comment": "Known findings: genuine defects of HIPS/autograd that are recorded rather than repaired (status open) and defects repaired by a 'fix:' commit (status fixed; fixed entries suppress nothing - their witnesses are re-run on every check and a failing one is an ordinary VIOLATION). `match` is a conjunction over fields of the case signature (lists = any of; {__re__}: regex; {__has__}: list membership); never a seed, hash or random value. Read-only at run time.", "findings": F}
